@@ -14,9 +14,11 @@ DRIVERS = ["driver_squeeth"]
 RULE = ("rejection-directed: for every vault operation × every cause the model knows (unsafe vault, dust vault, unknown vault, vault already has "
         "an LP, LP already lent / unknown / empty, wrong LP, insufficient WETH / oSQTH, token missing from the wallet, safe vault, closed pool, "
         "dust vault left) a state in which exactly that precondition fails is built from random prefixes of accepted operations and from the "
-        "exact boundary stream; bucket = (operation, model rejection cause, argument class, path kind)")
+        "exact boundary stream; plus every amount slot of open_deposit_mint(_by_collat_rate) / deposit / burn_and_withdraw fed with NaN, sNaN, +-Infinity, 1E+-400, -0 "
+        "and float nan/inf (a raising call must leave the state intact, no number of the state may become non-finite); "
+        "bucket = (operation, model rejection cause, argument class, path kind)")
 TRUSTED = ["the TWAP geometric mean is an oracle value captured from the real calc_twap_price"]
-ASSUMPTIONS = ["pool orientation token0 = WETH = quote; Broker.allow_negative_balance = False",
+ASSUMPTIONS = ["the model knows the pool orientation token0 = WETH = quote (pools with token0 = oSQTH, 1 world in 6, are judged by the snapshot oracle only); Broker.allow_negative_balance = False",
                "`has_update` is excluded by the property; the deep snapshot covers Broker assets, SqueethMarket.vault/_max_vault_id, "
                "UniLpMarket positions and the recorded actions"]
 
